@@ -315,7 +315,9 @@ func teDelegationSub(ctx *messageContext, payload []byte) error {
 	stakeDelta := new(big.Int).Neg(delta)
 	// check validator final total stake
 	if newVal.IsOnline() && newVal.Stake.Uint64() < ctx.Cfg.MinStakes[newVal.Role] {
-		val := newVal.PartialCopy()
+		// newVal is already in the state (and in the journal): change a copy of it
+		val := newVal
+		newVal = val.PartialCopy()
 		newVal.Status = params.ValidatorOffline // force to offline
 		db.UpdateValidator(newVal, val)
 	}
